@@ -373,19 +373,23 @@ def ov_convTy (inp : Input) (n : String) : Option Ty :=
     | .error _ => none
 
 /-- A DECIDABLE criterion for "`all_functions` of `load_and_check_functions` does not change when a
-column called `n` is added to the data": (a) `n` is a rule or is not the source of a p_id
-aggregation spec, (b) `create_time_conversion_functions` returns the same functions, (c) no
+column called `n` is added to the data": (a) every p_id aggregation spec is kept / dropped as
+before (`ov_pidKeep`: its source is a rule, a data column or a time conversion of a data column), (b) `create_time_conversion_functions` returns the same functions, (c) no
 argument / target becomes an automatic group sum only because `n` is now a data column. -/
+def ov_pidKeep (rules : List Fn) (dc : List String) (src : String) : Bool :=
+  hasFn rules src || dc.contains src || ((TimeConv.create [] dc).map (·.name)).contains src
+
 def ov_fnsStable (inp : Input) (n : String) : Bool :=
   let rules := merge [] (inp.rules.map (ruleFn inp.rounding))
   let dc := inp.data.map (·.1)
-  (inp.pidSpecs.all fun s => s.2.source != n || hasFn rules n) &&
+  (inp.pidSpecs.all fun s => ov_pidKeep rules (dc ++ [n]) s.2.source == ov_pidKeep rules dc s.2.source) &&
   match pidFns rules dc inp.pidSpecs with
   | .error _ => true
   | .ok pid =>
     decide (TimeConv.create ((merge rules pid).map fun f => (f.name, f.args)) (dc ++ [n]) =
       TimeConv.create ((merge rules pid).map fun f => (f.name, f.args)) dc) &&
-    ((merge (merge (timeConvFns (merge rules pid) dc) rules) pid).flatMap (·.args) ++ sortDedup inp.targets).all
+    ((merge (merge (timeConvFns (merge rules pid) dc) rules) pid).flatMap (·.args) ++ sortDedup inp.targets ++
+        inp.groupSpecs.filterMap (fun (_, s) => s.source)).all
       fun col => autoOk (merge (merge (timeConvFns (merge rules pid) dc) rules) pid) (dc ++ [n]) col ==
         autoOk (merge (merge (timeConvFns (merge rules pid) dc) rules) pid) dc col
 
@@ -398,26 +402,22 @@ theorem ov_filterMapM_congr {A B : Type} {g g' : A → Except Err (Option B)} {l
       ih (fun x hx => h x (List.mem_cons_of_mem _ hx))]
 
 theorem ov_pidFns_append (rules : List Fn) (dc : List String) (ps : List (String × PidSpec)) (n : String)
-    (h : (ps.all fun s => s.2.source != n || hasFn rules n) = true) :
+    (h : (ps.all fun s => ov_pidKeep rules (dc ++ [n]) s.2.source == ov_pidKeep rules dc s.2.source) = true) :
     pidFns rules (dc ++ [n]) ps = pidFns rules dc ps := by
   unfold pidFns
+  simp only
   congr 1
   apply ov_filterMapM_congr
   rintro ⟨m, s⟩ hs
-  have := List.all_eq_true.1 h (m, s) hs
-  simp only [Bool.or_eq_true, bne_iff_ne, ne_eq] at this
-  have hc : (hasFn rules s.source || (dc ++ [n]).contains s.source) =
-      (hasFn rules s.source || dc.contains s.source) := by
-    rcases this with hne | hr
-    · simp [hne]
-    · by_cases hsn : s.source = n
-      · rw [hsn, hr]; rfl
-      · simp [hsn]
+  have hc := beq_iff_eq.1 (List.all_eq_true.1 h (m, s) hs)
+  unfold ov_pidKeep at hc
+  simp only at hc
   simp only [hc]
 
 theorem ov_groupAggFns_append (fns : List Fn) (T dc : List String) (gs : List (String × GroupSpec))
     (n : String)
-    (h : ((fns.flatMap (·.args) ++ T).all fun col => autoOk fns (dc ++ [n]) col == autoOk fns dc col) = true) :
+    (h : ((fns.flatMap (·.args) ++ T ++ gs.filterMap (fun (_, s) => s.source)).all
+      fun col => autoOk fns (dc ++ [n]) col == autoOk fns dc col) = true) :
     groupAggFns fns T (dc ++ [n]) gs = groupAggFns fns T dc gs := by
   have hspecs : allSpecs fns T (dc ++ [n]) gs = allSpecs fns T dc gs := by
     unfold allSpecs
